@@ -68,7 +68,7 @@ def assoc_type(vm, selfty, tr, name):
 
 def parse_callee(c):
     ci = CallInfo(); ci.callee = c; ci.selfty = ci.trait = None; ci.targs = []; ci.fnargs = []; ci.tyargs = []
-    if c.startswith('<') and not c.startswith('<impl '):
+    if c.startswith('<') and (not c.startswith('<impl ') or _find_as(c[1:match_close(c, 0)]) >= 0):
         e = match_close(c, 0)
         inner = c[1:e]; rest = c[e + 1:]
         k = _find_as(inner)
@@ -137,7 +137,7 @@ def resolve(vm, callee, subst):
     c = normalize_assoc(vm, c)
     ci = parse_callee(c); ci.subst = subst
     hooks = vm.hooks
-    if ci.trait is not None or (ci.selfty is not None and c.startswith('<') and not c.startswith('<impl ')):
+    if ci.trait is not None or (ci.selfty is not None and c.startswith('<') and not c.startswith('<impl ')):  # qualified path
         selfty = ci.selfty; head = type_head(selfty)[0]
         # user hook by shape
         cands = mir.by_impl.get((ci.trait, head, ci.method), [])
@@ -166,6 +166,11 @@ def resolve(vm, callee, subst):
     # plain path
     if ci.selfty is not None:
         head = type_head(ci.selfty)[0]
+        vs = mir.src.enums.get(head)
+        if vs is not None and ci.method in vs and not mir.by_name.get(ci.method):
+            idx = vs.index(ci.method)
+            from .values import Adt
+            return ('model', (lambda vm_, args, ci_, ty=head, idx=idx: Adt(ty, idx, list(args))), ci, f'{head}::{ci.method} (variant constructor)')
         for f in mir.by_impl.get((None, head, ci.method), []):
             out = {}
             im = f.impl
